@@ -47,6 +47,9 @@ RULE = ("genomes of 1..4 chromosomes (sizes 0..6; names where one is a prefix of
         "bed file (lazily parsed columns: Genome.read_intervals(file), bnp.open(file).read()), joined from two files with "
         "np.concatenate and selected by a mask from a larger file; every combination of 0..3 entries per chromosome "
         "(exactly one entry on the first / a middle / the last chromosome) x source x operation. "
+        "Round 8: batches on ONE BinnedGenome incl. rejected ones (counts after every batch; a rejected batch changes "
+        "nothing); GenomicIntervals joined with np.concatenate / indexed with a mask as further sources (giconcat, gisel); "
+        "cases with ignored names repeated on a genome derived with with_ignored_added (gderive), also after from_file. "
         "Non-trivial = "
         ">= 2 included chromosomes and some entry touches a chromosome end or position 0")
 EXHAUSTIVE = {"quick": False, "thorough": False}
